@@ -194,6 +194,20 @@ func solveOne(o *Obligation, script string, idx int, dir string, timeoutMs int, 
 		o.Detail = "solvers disagree (sat vs unsat)"
 		return
 	}
+	if first < 0 && o.Expect == "sat" {
+		// reachability / vacuity check left undecided by the quantifiers: decide its quantifier-free part. A contradiction
+		// among the ground assumptions alone already makes the path unreachable (reported as unsat); a model of the ground
+		// part means "reachable as far as the ground assumptions go".
+		gfile := strings.TrimSuffix(file, ".smt2") + ".ground.smt2"
+		if err := os.WriteFile(gfile, []byte(groundOnly(script)), 0o644); err == nil {
+			so := runSolver(solvers[0], gfile, 5000)
+			if so.result == "sat" || so.result == "unsat" {
+				o.Result, o.Solver = so.result, "z3-new(ground assumptions only)"
+				o.Ms = time.Since(t0).Milliseconds()
+				return
+			}
+		}
+	}
 	if first >= 0 {
 		o.Result, o.Solver = outs[first].result, solverName(first)
 		if outs[first].result == "sat" {
@@ -364,4 +378,39 @@ func opaqueRec(script string) string {
 		lines[i] = "(declare-fun " + name + " (" + strings.Join(sorts, " ") + ") " + ret + ")"
 	}
 	return strings.Join(lines, "\n")
+}
+
+// groundOnly drops every assertion that contains a quantifier (top-level `(assert ...)` lines and the cl_N definitions
+// they name keep their text, so a quantified definition that is merely defined but not asserted does no harm).
+func groundOnly(script string) string {
+	lines := strings.Split(script, "\n")
+	quantDefs := map[string]bool{}
+	for _, ln := range lines {
+		if strings.HasPrefix(ln, "(define-fun ") && (strings.Contains(ln, "(forall ") || strings.Contains(ln, "(exists ")) {
+			f := strings.Fields(ln)
+			if len(f) > 1 {
+				quantDefs[f[1]] = true
+			}
+		}
+	}
+	var out []string
+	for _, ln := range lines {
+		if strings.HasPrefix(ln, "(assert ") {
+			if strings.Contains(ln, "(forall ") || strings.Contains(ln, "(exists ") {
+				continue
+			}
+			drop := false
+			for _, tok := range strings.FieldsFunc(ln, func(r rune) bool { return r == ' ' || r == '(' || r == ')' }) {
+				if quantDefs[tok] {
+					drop = true
+					break
+				}
+			}
+			if drop {
+				continue
+			}
+		}
+		out = append(out, ln)
+	}
+	return strings.Join(out, "\n")
 }
